@@ -11,7 +11,7 @@ ASSUMPTIONS = [
 
 def gen_cases(tier, seed):
     rnd = random.Random(seed)
-    n = 1500 if tier == "quick" else 30000
+    n = 1500 if tier == "quick" else 100000
     k_layouts = 3 if tier == "quick" else 8
     cases, tags = [], []
     # corpus: witnesses of repaired defects
